@@ -46,11 +46,24 @@ def run_doc(ctx, command):
     ctx.candidates = ctx.keep_confirmed(ctx.candidates, lambda c: (not str(c["record"].get("kind", "")).startswith("doc-")) or conf(c))
 
 
+def run_emphasis(ctx):
+    """Deep delimiter interplay is out of reach of Inline.tla's 10-symbol alphabets at length 4-6: the delimiter-only
+    alphabet of Emphasis.tla (the special case of Inline.tla without brackets) goes to length 10/12."""
+    from checks import c11
+    r = ctx.tlc("Emphasis", c11.cfg(c11.A3, 10 if ctx.tier == "quick" else 12), name="Emphasis_a3", timeout=3000)
+    rc, res, _ = ctx.harness(["emph", r["out"]], timeout=3000)
+    ctx.absorb(res)
+    mine = [c for c in ctx.candidates if c["record"].get("kind") not in ("blocks", "inline") and not str(c["record"].get("kind", "")).startswith("doc-")]
+    others = [c for c in ctx.candidates if c not in mine]
+    ctx.candidates = others + ctx.keep_confirmed(mine, lambda c: c11.confirm(ctx, c))
+
+
 def run(ctx):
     ctx.build_harness()
     run_doc(ctx, "c06")
     blocksfam.run_oracle(ctx)
     inlinefam.run_oracle(ctx)
+    run_emphasis(ctx)
     ctx.exhaustive = True
     ctx.rule = ("Doc.tla: every abstract document up to the node/depth bound over three leaf sets (structure, 20 inline snippets incl. multi-line links / code spans / "
                 "tags in every container, code and HTML blocks) under the default choice vector, every single-choice variation (24) and choice pairs (thorough); "
@@ -66,6 +79,9 @@ def run(ctx):
 def replay(ctx, path):
     import json
     kind = json.load(open(path))["record"].get("kind", "")
+    if kind not in ("blocks", "inline") and not kind.startswith("doc-"):
+        from checks import c11
+        return c11.replay(ctx, path)
     replay_with(ctx, {"blocks": "blocks", "inline": "inline"}.get(kind, "doc"), path)
 
 
